@@ -668,6 +668,9 @@ impl Index {
 
   pub fn update(&self) -> Result {
     loop {
+      #[cfg(feature = "verif")]
+      crate::verif::point("update.loop", 0, 0);
+
       let wtx = self.begin_write()?;
 
       let mut updater = Updater {
